@@ -134,3 +134,72 @@ def quota_lemmas(E, C, L, k, KL, lim):
     E.axiom(z3.Implies(ge, S >= KL + Z))
     E.axiom(z3.Implies(z3.And(le, S == KL + Z), z3.ForAll([c], z3.Implies(z3.And(c >= 0, c < k), tc[c] == bound(c)))))
     E.used_lemmas.update(["sum_le_quota", "sum_ge_quota", "sum_eq_quota"])
+
+
+# ----------------------------------------------------------------------------- range sums of real arrays
+RA = z3.ArraySort(z3.IntSort(), z3.RealSort())
+psumF = z3.Function("psum", RA, z3.IntSort(), z3.IntSort(), z3.RealSort())     # psum(a, lo, hi) = a[lo] + ... + a[hi-1]
+
+LEMMAS.update({
+    "psum_empty": "hi <= lo -> psum(a, lo, hi) = 0",
+    "psum_step": "lo < hi -> psum(a, lo, hi) = psum(a, lo, hi-1) + a[hi-1]",
+    "psum_split": "lo <= mid <= hi -> psum(a, lo, hi) = psum(a, lo, mid) + psum(a, mid, hi)",
+    "psum_congr": "(forall i in [lo,hi). a[i] = b[i]) -> psum(a, lo, hi) = psum(b, lo, hi)   (store outside the range: frame)",
+    "weighted_variance": "W = psum(w,lo,hi) != 0, m = psum(w*y,lo,hi)/W -> psum(w*(y-m)^2, lo, hi) = psum(w*y*y, lo, hi) - m*m*W",
+})
+
+
+def rterm(a):
+    return a.cell.term if isinstance(a, NdArr) else a
+
+
+def psum(a, lo, hi):
+    return psumF(rterm(a), z(lo), z(hi))
+
+
+def psum_empty(E, a, lo, hi):
+    E.axiom(z3.Implies(z(hi) <= z(lo), psum(a, lo, hi) == 0))
+    E.used_lemmas.add("psum_empty")
+
+
+def psum_step(E, a, lo, hi):
+    t = rterm(a)
+    E.axiom(z3.Implies(z(lo) < z(hi), psum(t, lo, hi) == psum(t, lo, z(hi) - 1) + t[z(hi) - 1]))
+    E.used_lemmas.add("psum_step")
+
+
+def psum_split(E, a, lo, mid, hi):
+    E.axiom(z3.Implies(z3.And(z(lo) <= z(mid), z(mid) <= z(hi)), psum(a, lo, hi) == psum(a, lo, mid) + psum(a, mid, hi)))
+    E.used_lemmas.add("psum_split")
+
+
+def psum_congr(E, a, b, lo, hi):
+    ta, tb = rterm(a), rterm(b)
+    i = z3.Int(fresh_name("si"))
+    E.axiom(z3.Implies(z3.ForAll([i], z3.Implies(z3.And(i >= z(lo), i < z(hi)), ta[i] == tb[i])), psum(ta, lo, hi) == psum(tb, lo, hi)))
+    E.used_lemmas.add("psum_congr")
+
+
+def track_psum(E, arr):
+    """every scalar store into `arr` emits the frame instance: a range that does not contain the stored position keeps its sum"""
+    cell = arr.cell
+
+    def on_store(old, idx, val, new):
+        lo, hi = z3.Int(fresh_name("flo")), z3.Int(fresh_name("fhi"))
+        i = idx[0]
+        E.axiom(z3.ForAll([lo, hi], z3.Implies(z3.Or(i < lo, i >= hi), psumF(new, lo, hi) == psumF(old, lo, hi)), patterns=[psumF(new, lo, hi)]))
+        E.used_lemmas.add("psum_congr")
+
+    def name_operands(bi, val):
+        out = []
+        for t in list(bi) + [val]:
+            if z3.is_const(t):
+                out.append(t)
+            else:
+                c = z3.Const(fresh_name("st"), t.sort())
+                E.assume(c == t)
+                out.append(c)
+        return out[:-1], out[-1]
+    on_store.name_operands = name_operands
+    cell.on_store = on_store
+    cell.on_fill = None
